@@ -21,6 +21,7 @@ var registry = map[string]func(p *Prog, r *Report){}
 func register(id string, f func(p *Prog, r *Report)) { registry[id] = f }
 
 func init() {
+	register("C04", checkC04)
 	register("C06", checkC06)
 	register("C08", checkC08)
 	register("C09", checkC09)
